@@ -93,6 +93,9 @@ func buildQuery(u *Unit, o *Oblig, extra []string) string {
 	ax := ""
 	if u.g != nil {
 		for _, a := range u.g.cs.Axioms {
+			if len(a.For) > 0 && (u.Contract == nil || !contains(a.For, u.Contract.Key)) {
+				continue
+			}
 			t := a.Text
 			used := false
 			for n := range u.g.cs.UFuncs {
